@@ -459,3 +459,14 @@ func init() {
 		return CV{ctx.ex.f.Mul(a[0].t, ctx.ex.decP()), nil}
 	}
 }
+
+func init() {
+	// upd2(a, i, j, v): the two-level array a with a[i][j] replaced by v
+	extraSpecFuncs["upd2"] = func(ctx *EvalCtx, a []CV) CV {
+		f := ctx.ex.f
+		return CV{f.Store(a[0].t, a[1].t, f.Store(f.Select(a[0].t, a[1].t), a[2].t, a[3].t)), nil}
+	}
+	extraSpecFuncs["upd"] = func(ctx *EvalCtx, a []CV) CV {
+		return CV{ctx.ex.f.Store(a[0].t, a[1].t, a[2].t), nil}
+	}
+}
